@@ -58,6 +58,7 @@ def instances(tier):
             if dim == 2 and quick and order == 5:
                 continue
             out.append(dict(id="controller-%s-dim%d" % (nm, dim), kind="controller", cls=nm, shape=[dim], budget=b))
+    out.append(dict(id="controller-history-HeunEulerSolver", kind="controller_history", cls="HeunEulerSolver", shape=[1], budget=b))
     out.append(dict(id="controller-implicit-aware-RadauIIA5", kind="controller_implicit", cls="RadauIIA5", shape=[1], budget=b))
     for base in ("EulerSolver", "RK4Solver", "SymplecticEulerSolver"):
         out.append(dict(id="richardson-retry-%s" % base, kind="richardson", cls=base, budget=dict(b, max_branches=150, max_paths=60, wall_s=50)))
@@ -182,6 +183,9 @@ def scenario(c, inst):
     if kind in ("controller", "controller_implicit"):
         _controller(c, inst)
         return
+    if kind == "controller_history":
+        _controller_history(c, inst)
+        return
     if kind == "richardson":
         _richardson(c, inst)
         return
@@ -244,6 +248,57 @@ def _controller(c, inst):
         c.check("c05.redo_iff_corr_below_0.81", ~is_small if c.symbolic else (not is_small))
         c.check("c05.no_redo_implies_error_norm_le_1", c.le(err2, 1, 1))
         c.check("c05.error_norm_ge_4_implies_redo", c.lt(err2, 16, 1))
+
+
+def _controller_history(c, inst):
+    """two consecutive real __call__s of ONE integrator with the REAL controller: a step from (t1, yA) and then a step from an
+    arbitrary other point (t2, yB).  If the second step is accepted at its first attempt, its error estimate must meet the tolerance
+    formed from ITS OWN data (atol + rtol*max(|yB|, |dY/dT|)) - whatever the first step looked like."""
+    from srx import core
+    cls = _cls(inst["cls"])
+    shape = tuple(inst["shape"])
+    n = int(np.prod(shape))
+    integ = _mk(c, cls, shape)
+    rhs = FreshRhs(c, shape)
+    attempts = []
+    orig_step = integ.step
+
+    def step(rhs_, t_, y_, consts, hh):
+        attempts.append(hh)
+        if len(attempts) > inst.get("max_attempts", 2):
+            raise core.CutPath("step_cap", "more than %d attempts in one call" % inst.get("max_attempts", 2))
+        return orig_step(rhs_, t_, y_, consts, hh)
+    integ.step = step
+    atol = rtol = 1e-6
+    states = []
+    for k in range(2):
+        t, h = c.real("t%d" % k), c.real("h%d" % k)
+        c.assume(h != 0)
+        c.assume(absval(c, h) >= 1e-6)
+        c.assume(absval(c, h) <= 1000)
+        y = c.array([c.real("y%d_%d" % (k, i)) for i in range(n)]).reshape(shape)
+        for v in flat(c, y):
+            c.assume(v <= 1000)
+            c.assume(v >= -1000)
+        del attempts[:]
+        st, r = run(integ, rhs, t, y, {}, h)
+        if st != "ok":
+            return          # FailedToMeetTolerances etc. are the other instances' subject
+        states.append((y, r, len(attempts)))
+    y, (new_h, (dT, dY)), natt = states[1]
+    c.note("attempts_second_call", natt)
+    if natt != 1:
+        return
+    e = integ.solver_dict["diff"]
+    err2 = 0
+    for yi, di, ei in zip(flat(c, y), flat(c, dY), flat(c, e)):
+        s1 = absval(c, yi)
+        s2 = absval(c, di / dT) if c.symbolic else abs(di / dT)
+        si = core.sym_max(s1, s2) if c.symbolic else max(s1, s2)
+        q = ei / (atol + rtol * si)
+        err2 = err2 + q * q
+    c.check("c05.history.accepted_step_meets_tolerance_of_its_own_state", c.le(err2, 1, 1), info=dict(cls=inst["cls"]))
+    c.check("c05.history.next_step_has_sign_of_dT", c.lt(0, new_h * dT))
 
 
 def _richardson(c, inst):
